@@ -271,7 +271,9 @@ BUILDER_METHODS = [
 ]
 JOINER_METHODS = ["on", "on_field", "using", "cross"]
 # other @builder methods: calls made from inside them must not be recorded as calls of the check
-OPAQUE_METHODS = ["join", "replace_table", "union", "union_all", "intersect", "except_of", "minus", "returning", "fetch_next"]
+OPAQUE_METHODS = ["join", "replace_table", "returning", "fetch_next"]
+SETOP_CTORS = ["union", "union_all", "intersect", "except_of", "minus"]
+SETOP_METHODS = ["orderby", "limit", "offset", "union", "union_all", "intersect", "except_of", "minus"]
 
 
 # ------------------------------------------------------------------ CREATE TABLE builder (DDLBuilder.lean, driver op `cstep`)
@@ -367,6 +369,75 @@ def _wrap_create(cls, name):
         try:
             rec.call = encode_create_call(self, name, args, kw)
             rec.pre = d_create(self)
+        except Unsupported as e:
+            rec.skip = str(e)[:50]
+        except Exception as e:
+            rec.skip = "describe: %s" % type(e).__name__
+        ACTIVE.append(rec)
+        _DEPTH[0] += 1
+        try:
+            out = orig(self, *args, **kw)
+            rec.result = out
+            return out
+        except Exception as e:
+            rec.exc = type(e).__name__
+            raise
+        finally:
+            _DEPTH[0] -= 1
+    wrapper.__wrapped__ = orig
+    wrapper.__name__ = name
+    setattr(cls, name, wrapper)
+
+
+# ------------------------------------------------------------------ set operations (Builder.lean `stepS` / `mkSetOp`, driver op `sstep`)
+
+def _setop_name(name):
+    from pypika.enums import SetOperation
+    return getattr(SetOperation, name).value
+
+
+def _wrap_setop(cls, name, ctor):
+    orig = cls.__dict__[name]
+
+    def wrapper(self, *args, **kw):
+        ok_recv = isinstance(self, Q.QueryBuilder) if ctor else isinstance(self, Q._SetOperation)
+        if ACTIVE is None or _DEPTH[0] > 0 or len(ACTIVE) >= MAX_RECORDS or not ok_recv:
+            _DEPTH[0] += 1
+            try:
+                return orig(self, *args, **kw)
+            finally:
+                _DEPTH[0] -= 1
+        rec = _Rec()
+        rec.skip = None
+        rec.label = "%s.%s" % ("QueryBuilder" if ctor else "_SetOperation", name)
+        rec.result = rec.exc = rec.pre = rec.call = None
+        rec.dialect = "setop"
+        try:
+            if name in SETOP_CTORS:
+                other = args[0] if args else kw.get("other")
+                if not isinstance(other, Q.QueryBuilder):
+                    raise Unsupported("set operand %r" % type(other))
+                call = {"m": "op", "name": _setop_name(name), "other": describe.d_query(other)}
+                if ctor:
+                    rec.pre = {"from_query": describe.d_query(self), "name": call["name"], "other": call["other"]}
+                    rec.call = []
+                else:
+                    rec.pre = {"st": describe.d_setop(self)}
+                    rec.call = [call]
+            else:
+                rec.pre = {"st": describe.d_setop(self)}
+                if name == "orderby":
+                    if set(kw) - {"order"}:
+                        raise Unsupported("orderby kwargs")
+                    o = kw.get("order")
+                    if o is not None and not isinstance(o, Order):
+                        raise Unsupported("order %r" % (o,))
+                    f0 = self.base_query._from[0] if self.base_query._from else None
+                    if isinstance(f0, Q._SetOperation) or isinstance(f0, Q.Table) and (f0._for or f0._for_portion):
+                        raise Unsupported("orderby base (identity)")
+                    rec.call = [{"m": "orderby", "args": [d_arg(x) for x in args], "order": describe.d_ord(o)}]
+                else:
+                    rec.call = [{"m": name, "n": _nat(args[0], name)}]
         except Unsupported as e:
             rec.skip = str(e)[:50]
         except Exception as e:
@@ -547,6 +618,10 @@ def install():
                 _wrap_opaque(cls, name)
     for name in JOINER_METHODS:
         _wrap_joiner(name)
+    for name in SETOP_CTORS:
+        _wrap_setop(Q.QueryBuilder, name, True)
+    for name in SETOP_METHODS:
+        _wrap_setop(Q._SetOperation, name, False)
     for cls in (Q.CreateQueryBuilder, DI.VerticaCreateQueryBuilder):
         for name in CREATE_METHODS:
             if name in cls.__dict__:
@@ -579,6 +654,25 @@ class Recording:
             if rec.skip is not None or rec.call is None or rec.pre is None:
                 if stats is not None:
                     stats["bstep-skipped:" + (rec.skip or "?")[:30]] = stats.get("bstep-skipped:" + (rec.skip or "?")[:30], 0) + 1
+                continue
+            if rec.dialect == "setop":
+                try:
+                    req = dict(rec.pre, op="sstep", calls=rec.call)
+                    if rec.exc is not None:
+                        exp = {"exc": rec.exc}
+                    elif isinstance(rec.result, Q._SetOperation):
+                        req["post"] = describe.d_setop(rec.result)
+                        exp = {"agree": True}
+                    else:
+                        continue
+                except Unsupported as e:
+                    if stats is not None:
+                        k = "bstep-skipped:" + str(e)[:30]
+                        stats[k] = stats.get(k, 0) + 1
+                    continue
+                if stats is not None:
+                    stats[tag] = stats.get(tag, 0) + 1
+                out.append((req, exp, "model of %s vs the real call" % rec.label))
                 continue
             if rec.dialect == "create":
                 try:
